@@ -328,6 +328,32 @@ def gate_before_return(ctx, py, methods, rule="PY-GATE-RETURN"):
                "does not return through tables.tree_sequence() on a copy")
 
 
+def _is_null_const(e):
+    if isinstance(e, ast.Name) and e.id == "NULL":
+        return True
+    if isinstance(e, ast.Attribute) and e.attr == "NULL":
+        return True
+    if isinstance(e, ast.Constant) and e.value == -1:
+        return True
+    return isinstance(e, ast.UnaryOp) and isinstance(e.op, ast.USub) and isinstance(e.operand, ast.Constant) and e.operand.value == 1
+
+
+def _tests_not_null(test, v):
+    """`test` is (a conjunction containing) v != NULL, NULL != v, v >= 0 or v > -1."""
+    if isinstance(test, ast.BoolOp) and isinstance(test.op, ast.And):
+        return any(_tests_not_null(t, v) for t in test.values)
+    if isinstance(test, ast.Compare) and len(test.ops) == 1:
+        a, b, op = test.left, test.comparators[0], test.ops[0]
+        isv = lambda e: isinstance(e, ast.Name) and e.id == v      # noqa: E731
+        if isinstance(op, ast.NotEq) and ((isv(a) and _is_null_const(b)) or (isv(b) and _is_null_const(a))):
+            return True
+        if isv(a) and isinstance(op, ast.GtE) and isinstance(b, ast.Constant) and b.value == 0:
+            return True
+        if isv(a) and isinstance(op, ast.Gt) and _is_null_const(b):
+            return True
+    return False
+
+
 def null_index(ctx, py, rule="PY-NULL-INDEX"):
     ctx.rule(rule, "in trees.py a value obtained from a NULL-able tree accessor (left_sample, right_sample, next_sample, "
                    "left_child, right_sib, parent, ...) is compared with NULL before it is used as a subscript "
@@ -353,8 +379,8 @@ def null_index(ctx, py, rule="PY-NULL-INDEX"):
                 guarded = False
                 while p is not None and p is not fn:
                     if isinstance(p, (ast.If, ast.While)):
-                        t = ast.unparse(p.test)
-                        if ("%s != NULL" % v) in t or ("%s != tskit.NULL" % v) in t or ("%s != -1" % v) in t:
+                        in_body = any(x is y for b in p.body for y in ast.walk(b))
+                        if in_body and _tests_not_null(p.test, v):
                             guarded = True
                     p = pm.get(p)
                 n += 1
@@ -553,13 +579,14 @@ def always_raises(ctx, py, mod, qual, rule="PY-ALWAYS-RAISES"):
 
 # =============================================================================================
 HALFOPEN = [
-    # (module, function, attribute compared, bound role, required operator, meaning)
-    ("tables", "TableCollection.keep_intervals", "position", "interval-start", "GtE", "site kept iff s <= position"),
-    ("tables", "TableCollection.keep_intervals", "position", "interval-end", "Lt", "site kept iff position < e (intervals are half-open)"),
-    ("tables", "TableCollection.keep_intervals", "right", "interval-start", "LtE", "edge/migration dropped iff right <= s"),
-    ("tables", "TableCollection.keep_intervals", "left", "interval-end", "GtE", "edge/migration dropped iff left >= e"),
-    ("tables", "TableCollection.ltrim", "position", "min-left", "Lt", "sites strictly left of the first edge are deleted"),
-    ("tables", "TableCollection.rtrim", "position", "max-right", "GtE", "sites at or right of the last edge end are deleted"),
+    # (module, function, attribute compared, bound role, value of the selection expression AT the boundary
+    #  (attribute == bound) once the negations around the comparison are applied, meaning)
+    ("tables", "TableCollection.keep_intervals", "position", "interval-start", True, "a site at position == s is kept"),
+    ("tables", "TableCollection.keep_intervals", "position", "interval-end", False, "a site at position == e is not kept (intervals are half-open)"),
+    ("tables", "TableCollection.keep_intervals", "right", "interval-start", False, "an edge/migration with right == s does not overlap [s, e)"),
+    ("tables", "TableCollection.keep_intervals", "left", "interval-end", False, "an edge/migration with left == e does not overlap [s, e)"),
+    ("tables", "TableCollection.ltrim", "position", "min-left", False, "a site exactly at the first edge's left end is not deleted"),
+    ("tables", "TableCollection.rtrim", "position", "max-right", True, "a site exactly at the last edge's right end is deleted"),
 ]
 
 
@@ -580,39 +607,72 @@ def _bound_name(fn, role):
     return None
 
 
+def _is_negation(node):
+    if isinstance(node, ast.UnaryOp) and isinstance(node.op, (ast.Invert, ast.Not)):
+        return True
+    return isinstance(node, ast.Call) and (call_name(node) or "").split(".")[-1] == "logical_not"
+
+
 def half_open(ctx, py, rule="PY-HALFOPEN"):
-    ctx.rule(rule, "interval membership in the Python editors is half-open [s, e) everywhere: the comparison operator used for "
-                   "each (coordinate attribute, interval bound) pair is the one the half-open convention dictates, so sites and "
-                   "edges are clipped consistently")
+    ctx.rule(rule, "interval membership in the Python editors is half-open [s, e) everywhere: for each (coordinate attribute, "
+                   "interval bound) pair, the truth value that the selection expression takes exactly at the boundary "
+                   "(comparison operator, operand order and the logical_not / ~ / not around it all taken into account) is the one "
+                   "the half-open convention dictates, so sites and edges are clipped consistently")
     n = 0
-    for mod, qual, attr, role, op, why in HALFOPEN:
+    AT_EQ = {"Lt": False, "Gt": False, "NotEq": False, "LtE": True, "GtE": True, "Eq": True}
+    for mod, qual, attr, role, want, why in HALFOPEN:
         m = py.mod(mod)
         fn = py.func(mod, qual)
         bound = _bound_name(fn, role)
+        key = "%s|%s~%s" % (qual, attr, role)
         if bound is None:
-            ctx.ob(rule, "%s|%s~%s" % (qual, attr, role), False, m.loc(fn), "no local plays the role `%s` (%s)" % (role, why))
+            ctx.ob(rule, key, False, m.loc(fn), "no local plays the role `%s` (%s)" % (role, why))
             continue
+        # locals that alias the attribute: site_pos = self.sites.position
+        alias = set()
+        for x in ast.walk(fn):
+            if isinstance(x, ast.Assign) and isinstance(x.value, ast.Attribute) and x.value.attr == attr:
+                alias |= {t.id for t in x.targets if isinstance(t, ast.Name)}
+        pm = parents_map(fn)
+
+        def is_attr(e):
+            return (isinstance(e, ast.Attribute) and e.attr == attr) or (isinstance(e, ast.Name) and e.id in alias)
+
+        def is_bound(e):
+            return isinstance(e, ast.Name) and e.id == bound
         found = []
         for c in ast.walk(fn):
-            if isinstance(c, ast.Compare) and len(c.ops) == 1:
-                l, r = c.left, c.comparators[0]
-                la = l.attr if isinstance(l, ast.Attribute) else None
-                rn = r.id if isinstance(r, ast.Name) else None
-                if la == attr and rn == bound:
-                    found.append((type(c.ops[0]).__name__, c))
-                # reversed operand order
-                ra = r.attr if isinstance(r, ast.Attribute) else None
-                ln = l.id if isinstance(l, ast.Name) else None
-                if ra == attr and ln == bound:
-                    flip = {"Lt": "Gt", "Gt": "Lt", "LtE": "GtE", "GtE": "LtE"}
-                    found.append((flip.get(type(c.ops[0]).__name__, type(c.ops[0]).__name__), c))
+            if not isinstance(c, ast.Compare):
+                continue
+            terms = [c.left] + list(c.comparators)
+            for i, op in enumerate(c.ops):
+                l, r = terms[i], terms[i + 1]
+                if not ((is_attr(l) and is_bound(r)) or (is_attr(r) and is_bound(l))):
+                    continue
+                val = AT_EQ.get(type(op).__name__)
+                if val is None:
+                    continue
+                # negations between the comparison and its statement
+                negs, p, stmt = 0, pm.get(c), None
+                while p is not None and not isinstance(p, ast.stmt):
+                    negs += _is_negation(p)
+                    p = pm.get(p)
+                stmt = p
+                # ... and around every later use of the name the statement assigns
+                if isinstance(stmt, ast.Assign) and len(stmt.targets) == 1 and isinstance(stmt.targets[0], ast.Name):
+                    nm = stmt.targets[0].id
+                    uses = [u for u in ast.walk(fn) if isinstance(u, ast.Name) and u.id == nm and isinstance(u.ctx, ast.Load)]
+                    if uses and all(_is_negation(pm.get(u)) for u in uses):
+                        negs += 1
+                found.append((val ^ (negs % 2 == 1), c))
         n += 1
         if not found:
-            ctx.ob(rule, "%s|%s~%s" % (qual, attr, role), False, m.loc(fn), "no comparison of .%s with %s found (%s)" % (attr, bound, why))
+            ctx.ob(rule, key, False, m.loc(fn), "no comparison of .%s with %s found (%s)" % (attr, bound, why))
             continue
-        bad = [f for f in found if f[0] != op]
-        ctx.ob(rule, "%s|%s~%s" % (qual, attr, role), not bad, m.loc((bad or found)[0][1]),
-               "%s: .%s %s %s" % (why, attr, op, bound) if not bad else "%s compared with %s using %s, but %s requires %s" % (attr, bound, bad[0][0], why, op))
+        bad = [f for f in found if f[0] != want]
+        ctx.ob(rule, key, not bad, m.loc((bad or found)[0][1]),
+               "%s: `%s` is %s at the boundary" % (why, ast.unparse(found[0][1]), want) if not bad else
+               "`%s` makes the selection %s at %s == %s, but %s" % (ast.unparse(bad[0][1]), bad[0][0], attr, bound, why))
     return n
 
 
